@@ -93,11 +93,12 @@ def run_job(spec):
         from symx.shim import shims
         reg = _load(spec['prop'])
         h = reg[spec['harness']]
-        eng = Engine(feas_timeout_ms=spec.get('feas_ms', 500),
-                     shard=tuple(spec['shard']) if spec.get('shard') else None,
-                     shard_depth=h.shard_depth)
+        eng = Engine(feas_timeout_ms=spec.get('feas_ms', 500), shard=None, shard_depth=h.shard_depth)
         set_engine(eng)
-        work = [[]]
+        # work list: decision prefixes still to explore.  A 'split' job explores breadth-first until the frontier is
+        # wide enough and hands the frontier back (out['frontier']); subtree jobs start from given prefixes.
+        work = [[tuple(d) for d in p] for p in spec.get('roots', [[]])]
+        split_target = spec.get('split_target')
         covers = set()
         deadline = t0 + spec.get('job_timeout_s', 3600)
         nx = 0
@@ -106,7 +107,13 @@ def run_job(spec):
             if time.time() > deadline:
                 out['errors'].append('job timeout with %d prefixes left' % len(work))
                 break
-            prefix = work.pop()
+            if (split_target and len(work) >= split_target) or \
+                    (spec.get('path_budget') and out['paths'] >= spec['path_budget'] and work):
+                # hand the unexplored prefixes back for redistribution
+                out['frontier'] = [[list(d) for d in p] for p in work]
+                work = []
+                break
+            prefix = work.pop(0) if split_target else work.pop()
             eng.reset(prefix)
             ctx = Ctx('sym', eng)
             eng.hints_for_realize = ctx.hints       # same list object: hints declared so far
@@ -118,8 +125,6 @@ def run_job(spec):
                 out['aborted'] += 1
                 continue
             work.extend(eng.pending)
-            if not eng.shard_owns_path():
-                continue
             out['paths'] += 1
             out['realized'] = eng.realized
             if out['paths'] > h.max_paths:
@@ -444,9 +449,38 @@ def main(argv=None):
                                   shard=[i, shards] if shards > 1 else None,
                                   query_timeout_s=qto, xcheck_every=25,
                                   job_timeout_s=900 if tier == 'quick' else 3 * 3600))
-    results = _schedule(specs, args.jobs)
-    for r in results:
-        pass
+    # phase 1: jobs that want sharding first run as 'split' jobs (breadth-first until the frontier has enough prefixes);
+    # phase 2: the frontier prefixes are dealt out to subtree jobs (dynamic balance instead of hashing decisions)
+    phase1 = []
+    for sp in specs:
+        sp = dict(sp)
+        if sp.get('shard'):
+            if sp['shard'][0] != 0:
+                continue
+            sp['split_target'] = max(8, 4 * sp['shard'][1])
+            sp['nsub'] = sp['shard'][1]
+            sp['shard'] = None
+        phase1.append(sp)
+    results = _schedule(phase1, args.jobs)
+    todo = results
+    rnd = 0
+    while True:
+        rnd += 1
+        nxt = []
+        for r in todo:
+            fr = r.get('frontier')
+            if fr:
+                nsub = max(1, min(len(fr), 2 * r['spec'].get('nsub', 1)))
+                for i in range(nsub):
+                    sp = {k: v for k, v in r['spec'].items() if k not in ('split_target', '_id')}
+                    sp['roots'] = fr[i::nsub]
+                    sp['shard'] = 'r%d.%d/%d' % (rnd, i, nsub)
+                    sp['path_budget'] = 120 if rnd < 6 else None     # big subtrees come back and are split again
+                    nxt.append(sp)
+        if not nxt:
+            break
+        todo = _schedule(nxt, args.jobs)
+        results += todo
 
     known = load_known()
     errors = [e for r in results for e in r['errors']]
